@@ -8,10 +8,14 @@ project(env) reads <outdir>/out_rerun.txt (written -- or not -- by the real Reru
             location via Rendered.by_loc, 0 = nothing starts there -- unknown locations are kept, never dropped)
    raw      the first lines of the file as text (diagnostics only)
    order    the scenario ids of the program in model (= run) order
+   seen_status  per element: status of the scenario object that was announced to the formatters during the run
+            ("" = never announced), when the case runs with RECORDER_ARGS
 Python only reads and maps; which scenarios had to be listed is decided by specs/Rerun_Trace.tla from the recorded
 final statuses."""
 import os
 import re
+
+from behave.formatter.base import Formatter
 
 _LOC = re.compile(r"^(?P<file>.*):(?P<line>\d+)$")
 UNKNOWN_FILE = 99
@@ -43,7 +47,49 @@ def read_file(path, rendered, planted=None):
     return {"exists": True, "stale": False, "lines": parse_lines(text, rendered), "raw": text.splitlines()[:6]}
 
 
+# ---------------------------------------------------------------------------------------------- scenarios that RAN
+# The final statuses are read from the model after the run by walking it (ScenarioOutline.scenarios ...).  That walk may
+# hand out other objects than the ones the runner executed (an outline that rebuilds its rows), so the status of a
+# scenario is also observed on the very object that was announced to the formatters: a registered formatter
+# (`-f run.reports_c17:ScenStatusRecorder -o /dev/null`) keeps the scenario objects it is given; their status is read
+# after the run.  Python records; the judge decides from the recorded statuses.
+SEEN = []
+
+
+class ScenStatusRecorder(Formatter):
+    name = "c17rec"
+    description = "keeps the scenario objects announced to the formatters"
+
+    def __init__(self, stream_opener, config):
+        Formatter.__init__(self, stream_opener, config)
+        del SEEN[:]
+
+    def scenario(self, scenario):
+        SEEN.append(scenario)
+
+
+RECORDER_ARGS = ["-f", "run.reports_c17:ScenStatusRecorder", "-o", os.devnull]
+
+
+def seen_status(rendered):
+    """-> list per element id: status (name) of the LAST object announced for that scenario location, "" if none"""
+    fidx = {fn: i for i, (fn, _t) in enumerate(rendered.files)}
+    out = [""] * len(rendered.flat["elems"])
+    for sc in SEEN:
+        i = rendered.by_loc.get((fidx.get(os.path.basename(sc.filename), -1), sc.line), 0)
+        if i:
+            out[i - 1] = sc.status.name
+    return out
+
+
+def merged_status(final, seen):
+    """status per element: the one observed on the object that ran where there is one, the final walk otherwise"""
+    return [s or f for f, s in zip(final, seen)]
+
+
 def project(env):
     out = read_file(os.path.join(env.outdir, "out_rerun.txt"), env.rendered)
     out["order"] = [e["id"] for e in env.flat["elems"] if e["kind"] == "scenario"]
+    uses = "run.reports_c17:ScenStatusRecorder" in ((env.case or {}).get("extra_args") or [])
+    out["seen_status"] = seen_status(env.rendered) if uses else [""] * len(env.flat["elems"])
     return out
